@@ -4,6 +4,7 @@ CONSTANTS
   NCalls = 2
   Sections <- Sec7
   MaxPreempt = 3
+  MinListAtFork = 0
   Forkers <- NoFork
   AtFork = "locked"
   Defects <- NoDefects
